@@ -131,11 +131,11 @@ func boundaryPairs() []bpair {
 	}
 	// << >> : counts at the width, operands around 1, -1, 2^31, 2^62
 	var sh []int64
-	for _, c := range []int64{1, -1, 2, -2, 3, 1 << 31, 1<<31 - 1, 1<<31 + 1, 1 << 32, 1 << 62, 1<<62 - 1, 1<<62 + 1, -(1 << 62), math.MaxInt64, math.MinInt64, math.MinInt64 + 1} {
+	for _, c := range []int64{0, -3, -5, -255, -(1 << 31), -(1 << 32), -(1<<62 + 1), 1, -1, 2, -2, 3, 1 << 31, 1<<31 - 1, 1<<31 + 1, 1 << 32, 1 << 62, 1<<62 - 1, 1<<62 + 1, -(1 << 62), math.MaxInt64, math.MinInt64, math.MinInt64 + 1} {
 		sh = append(sh, c)
 	}
 	for _, x := range sh {
-		for _, c := range []int64{0, 1, 30, 31, 32, 33, 61, 62, 63, 64, 65} {
+		for _, c := range []int64{0, 1, 30, 31, 32, 33, 61, 62, 63, 64, 65, 66, 100, 127, 128, 129, 1 << 31, 1 << 32, math.MaxInt64} {
 			add(vInt(x), vInt(c), "<<", ">>")
 		}
 	}
